@@ -8,9 +8,11 @@ class L:
 class M(StateMachine):
     a = State(initial=True, enter="announce"); b = State(final=True)
     go = a.to(b, on="charge")
-sm = M(listeners=[L()])
+first = L()
+sm = M(listeners=[first])
+sm.ref = first   # public handle on the listener, copied together with the machine
 for clone in (copy.deepcopy(sm), pickle.loads(pickle.dumps(sm))):
     assert clone.go() == "ok"
-    (l,) = list(clone._listeners)
+    l = clone.ref
     assert l.seen == ["enter", "charge"], l.seen
 assert sm.go() == "ok"
